@@ -26,16 +26,36 @@ OBLIGATIONS = [
     'C02.later_noop', 'C02.trS_sound', 'C02.cycle_sound', 'C02.transpile_seq_sound_partial', 'C02.fstore_laws', 'C02.agree0', 'C02.crel0', 'C02.okS0',
     'C02.refuse_or_sound', 'C02.refuse_complete',
     # combinational bodies
-    'C02.p2p_exec', 'C02.comb_sound', 'C02.transpile_comb_sound_all', 'C02.supported_comb', 'C02.crelC', 'C02.okC0', 'C02.norap0',
+    'C02.comb_sound', 'C02.transpile_sound_all', 'C02.transpile_comb_sound_all', 'C02.supported_comb', 'C02.crelC', 'C02.okC0',
     # power-up
     'C02.cycle_soundB', 'C02.runD_mono', 'C02.execD_masked', 'C02.powerup_crel', 'C02.init_list_last', 'C02.initial_block_sound', 'C02.trModule_items',
-    'C02.transpile_seq_sound_from_powerup', 'C02.powerup_safe_of_noOutRead', 'C02.powerup0',
+    'C02.transpile_seq_sound_from_powerup', 'C02.powerup_safe_of_noOutRead', 'C02.powerup0', 'C02.powerup_crel_full',
+    'C02.transpile_sound_from_powerup_all', 'C02.init_outputs_zero', 'C02.initial_block_establishes_powerup',
     # negative results (each replayed on the real transpiler by the witnesses)
     'C02.or_value_counterexample', 'C02.narrow_compare_counterexample', 'C02.cmp_rhs_unparenthesised_counterexample',
     'C02.guard_fallthrough_counterexample', 'C02.uninit_output_counterexample', 'C02.bit31_counterexample',
 ]
 
 DRIVER = 'Drv/C02.lean'
+VDRIVER = 'Drv/C02V.lean'     # Drv/V.lean whose `begin` drives the inputs with 0 before the first settle (Transpile/VBegin0.lean)
+
+
+class VBatch0(vsim.VBatch):
+    def run(self):
+        if not self.jobs:
+            return []
+        out = run_driver(VDRIVER, self.lines)
+        res = []
+        for jb in self.jobs:
+            ls, os_ = self.lines[jb['start']:jb['end']], out[jb['start']:jb['end']]
+            trace = []
+            for l, o in zip(ls, os_):
+                if l.startswith('gets '):
+                    vals = o.split(',')
+                    trace.append({n: (v if v == 'x' else int(v)) for n, v in zip(jb['outputs'], vals)})
+            res.append(dict(label=jb['label'], parse=os_[0], begin=os_[1], errors=os_[-1], trace=trace))
+        self.lines, self.jobs = [], []
+        return res
 
 
 # proposals for /verif/known_findings.json (the integrator merges them); used locally until they are listed there.
@@ -70,13 +90,13 @@ PROPOSED_FINDINGS = [
      "witness": {"src": "if (self.a.get() + self.b.get()) > self.b.get(): self.r.prepare(1)\nelse: self.r.prepare(0)", "widths": {"a": 8, "b": 8}, "history": [{"a": 200, "b": 100}], "signal": "r", "sim": 1, "verilog": 0},
      "what": "an expression made only of narrow ports in a self-determined position (comparison operands, if-test, shift amount, case subject) is "
              "evaluated at the ports' width in Verilog: 8-bit a=200,b=100: Python (a+b)>b is True, Verilog computes 44>100"},
-    {"id": "C02-read-after-put", "property": "C02", "status": "known", "anchor": "py4hw/transpilation/python2verilog_transpilation.py:481",
+    {"id": "C02-read-after-put", "property": "C02", "status": "fixed", "fixed_by": "b298f20", "anchor": "py4hw/transpilation/python2verilog_transpilation.py:481",
      "class_expr": "('read-after-put' in r.get('reasons', []) or 'put-in-clock' in r.get('reasons', []) or 'prepare-in-propagate' in r.get('reasons', [])) "
                    "and r.get('kind') in ('mismatch','x-after-write','x-state','x-consequence','v-error')",
      "witness": {"src": "self.r.put(self.a.get()); self.r.put(self.r.get() + self.b.get())", "history": [{"a": 1, "b": 2}], "signal": "r", "sim": 3},
      "what": "`put` becomes a non-blocking `<=` inside `always @(*)`: a body that reads back a wire it has just put sees the old value in Verilog "
              "(r.put(a); r.put(r.get()+b) never settles), and `put` inside clock() takes effect one edge late"},
-    {"id": "C02-attr-ne-port", "property": "C02", "status": "known", "anchor": "py4hw/transpilation/python2verilog_transpilation.py:697",
+    {"id": "C02-attr-ne-port", "property": "C02", "status": "fixed", "fixed_by": "53243dd", "anchor": "py4hw/transpilation/python2verilog_transpilation.py:697",
      "class_expr": "'attr-ne-port' in r.get('reasons', []) and r.get('kind') in ('mismatch','x-after-write','x-state','x-consequence','x-at-powerup','v-error')",
      "witness": {"class": "SelectType (test/unit/Test_RtlGeneration.py): self.imm_type = self.addOut('imm_typ', ...)", "signal": "imm_typ"},
      "what": "ports are referenced in the body by ATTRIBUTE name but declared in the header by PORT name: SelectType drives the undeclared "
@@ -112,13 +132,23 @@ PROPOSED_FINDINGS = [
              "component, so `self.r.value = e` (direct write to a wire, bypassing put/prepare) is emitted as an assignment to a fresh integer "
              "`value` and the port is never driven (simulator r=5, Verilog x); likewise `self.sub.x`, `other.x` are taken for `x`; candidate "
              "repair /tmp/C02_value_target.diff"},
+    {"id": "C02-prepare-in-propagate", "property": "C02", "status": "known", "anchor": "py4hw/transpilation/python2verilog_transpilation.py:480",
+     "class_expr": "'prepare-in-propagate' in r.get('reasons', []) and r.get('kind') in ('mismatch','x-after-write','x-state','x-consequence','v-error')",
+     "witness": {"src": "propagate(): self.r.prepare(self.a.get())", "history": [{"a": 1}, {"a": 2}], "signal": "r"},
+     "what": "`prepare` inside propagate() is not refused: it is emitted as `<=` in `always @(*)` and takes effect at once, while the simulator "
+             "applies it at the next Simulator.clk (Wire.settleAll); formerly part of C02-read-after-put"},
+    {"id": "C02-comb-feedback", "property": "C02", "status": "known", "anchor": "py4hw/transpilation/python2verilog_transpilation.py:56",
+     "class_expr": "'comb-feedback' in r.get('reasons', []) and r.get('kind') in ('mismatch','x-after-write','x-state','x-consequence','v-error')",
+     "witness": {"src": "propagate(): self.r.put(self.r.get() + 1)", "history": [{"a": 1}], "signal": "r"},
+     "what": "a propagate() that reads an output before it has put it in the same call (`r.put(r.get()+1)`) is a combinational feedback loop: "
+             "it is not refused, the emitted `always @(*) r=r+1;` never settles, and the simulator's result depends on how often propagate() is called"},
     {"id": "C02-new-attr-uninit", "property": "C02", "status": "known", "anchor": "py4hw/transpilation/python2verilog_transpilation.py:596",
      "class_expr": "('new-attr' in r.get('reasons', []) or 'state-in-comb' in r.get('reasons', []) or 'port-as-value' in r.get('reasons', []) "
                    "or 'neg-const' in r.get('reasons', [])) and r.get('kind') in ('mismatch','x-after-write','x-state','x-consequence','unparseable','v-error')",
      "witness": {"src": "propagate(): self.cnt = self.cnt + 1"},
      "what": "state attributes used by propagate() (or first assigned inside the method) are declared `integer` without initial value; "
              "negative constructor constants / port attributes used as values are outside the proved fragment"},
-    {"id": "C02-uninit-output-regs", "property": "C02", "status": "known", "anchor": "py4hw/rtl_generation.py:715",
+    {"id": "C02-uninit-output-regs", "property": "C02", "status": "fixed", "fixed_by": "c2ba9bf", "anchor": "py4hw/rtl_generation.py:715",
      "class_expr": "r.get('kind')=='x-at-powerup' or (r.get('kind') in ('x-after-write','x-consequence','x-state') and r.get('reads_own_output') "
                    "and r.get('tainted') and not r.get('powerup_safe'))",
      "witness": {"class": "CounterBehavioural (test/unit/Test_RtlGeneration.py)", "history": [{"inc": 1}, {"inc": 1}], "signal": "q"},
@@ -260,7 +290,7 @@ class Dut:
         self.attr_of_port = {}
         if self.syntax:
             for p in self.syntax['ports']:
-                self.attr_of_port[p['port']] = p['attr']
+                self.attr_of_port[p['pyport']] = p['attr']
         self.features = set(self.tags)
         if self.syntax:
             outattrs = {p['attr'] for p in self.syntax['ports'] if p['isOut']}
@@ -402,7 +432,7 @@ class Batch:
                         lines.append('prop')
             spans.append((start, len(lines)))
         # ---- Verilog side (runs concurrently with the Python-side model)
-        vb = vsim.VBatch()
+        vb = VBatch0()
         vjobs = []
         for i, jb in enumerate(self.jobs):
             d = jb['dut']
@@ -417,14 +447,18 @@ class Batch:
 
         def run_v():
             try:
+                t0_ = time.time()
                 box['v'] = vb.run() if vjobs else []
+                res.hist('timing_s', 'verilog-driver', round(time.time() - t0_))
             except Exception as e:
                 box['verr'] = e
         import threading
         th = threading.Thread(target=run_v)
         th.start()
         try:
+            t0_ = time.time()
             out = run_driver(DRIVER, lines) if lines else []
+            res.hist('timing_s', 'pysem-driver', round(time.time() - t0_))
         except ToolFailure as e:
             res.broken.append(('correspondence', 'pysem-driver', str(e)[:300]))
             out = None
@@ -509,8 +543,8 @@ class Batch:
                     ms = dict(x.split('=') for x in f[3].split(',') if x) if len(f) > 3 else {}
                     bad = None
                     for p_ in d.syntax['ports']:
-                        if str(real[k]['ports'][p_['port']]) != mw.get(p_['attr']):
-                            bad = (p_['port'], real[k]['ports'][p_['port']], mw.get(p_['attr']))
+                        if str(real[k]['ports'][p_['pyport']]) != mw.get(p_['attr']):
+                            bad = (p_['pyport'], real[k]['ports'][p_['pyport']], mw.get(p_['attr']))
                     for sn, sv in real[k]['state'].items():
                         if sn in ms and str(sv) != ms[sn]:
                             bad = (sn, sv, ms[sn])
@@ -559,7 +593,7 @@ class Batch:
         cmp_cycles = 0
         # signals whose value the body reads back: state integers and the outputs it get()s
         if d.syntax:
-            feedback = [p_['port'] for p_ in d.syntax['ports'] if p_['isOut'] and f"(get {p_['attr']})" in d.syntax['sexp']]
+            feedback = [p_['pyport'] for p_ in d.syntax['ports'] if p_['isOut'] and f"(get {p_['attr']})" in d.syntax['sexp']]
         else:
             feedback = d.outputs_read_fallback()
         feedback += [n for n in d.state_names if n in jb['vobs']]
@@ -584,12 +618,8 @@ class Batch:
                 got = tr[k + 1][name]
                 if got == want:
                     continue
-                if name in d.out_ports and not seen_change and (got == 'x' or not d.seq):
-                    # never assigned so far: the simulator shows the wire's power-up 0, the `output reg` holds x (or, for an
-                    # incompletely assigned always @(*) = latch, whatever the time-0 evaluation on unknown inputs left there).
-                    # A KNOWN value in a clocked block is different: the Verilog executed an assignment the Python never did.
-                    kind = 'x-at-powerup'
-                elif got == 'x':
+                if got == 'x':
+                    # since /repo c2ba9bf the output registers are initialised to 0: an unknown is never a power-up artefact
                     kind = 'x-state' if name not in d.out_ports else 'x-after-write'
                 else:
                     kind = 'x-consequence' if tainted else 'mismatch'
@@ -784,6 +814,27 @@ class WDoublePut(py4hw.Logic):
         self.r.put(self.a.get())
         self.r.put(self.r.get() + self.b.get() + 0)
 
+class WCombConst(py4hw.Logic):
+    def __init__(self, parent, name, a, b, r):
+        super().__init__(parent, name)
+        self.a = self.addIn('a', a)
+        self.b = self.addIn('b', b)
+        self.r = self.addOut('r', r)
+        self.offs = 3
+        self.offs = 5
+    def propagate(self):
+        self.r.put(self.a.get() + self.offs)
+
+class WCountUp(py4hw.Logic):
+    def __init__(self, parent, name, a, b, r):
+        super().__init__(parent, name)
+        self.a = self.addIn('a', a)
+        self.b = self.addIn('b', b)
+        self.r = self.addOut('r', r)
+    def clock(self):
+        if self.a.get() == 1:
+            self.r.prepare(self.r.get() + 1)
+
 class WPutInClock(py4hw.Logic):
     def __init__(self, parent, name, a, b, r):
         super().__init__(parent, name)
@@ -828,8 +879,13 @@ WITNESSES = [  # (class, history, expected finding id)
     ('WCmpRhs', [{'a': 3, 'b': 3}, {'a': 3, 'b': 3}, {'a': 1, 'b': 3}, {'a': 0, 'b': 2}, {'a': 1, 'b': 1}], 'regression:agree'),
     ('WNarrow', [{'a': 200, 'b': 100}, {'a': 200, 'b': 100}], 'C02-narrow-context'),
     ('WNarrowAssign', [{'a': 200, 'b': 1}, {'a': 255, 'b': 1}], 'C02-narrow-context'),
-    ('WDoublePut', [{'a': 1, 'b': 2}], 'C02-read-after-put'),
-    ('WPutInClock', [{'a': 1}, {'a': 5}, {'a': 7}], 'C02-read-after-put'),
+    # regression (fixed b298f20): put is a blocking assignment - reading back a wire just put, and put inside clock(), must agree
+    ('WDoublePut', [{'a': 1, 'b': 2}, {'a': 7, 'b': 9}, {'a': 0, 'b': 0}], 'regression:agree'),
+    ('WPutInClock', [{'a': 1}, {'a': 5}, {'a': 7}], 'regression:agree'),
+    # regression (fixed 01f85a2): a propagate() reading a constructor constant needs it in the `initial` block
+    ('WCombConst', [{'a': 1, 'b': 2}, {'a': 7, 'b': 9}], 'regression:agree'),
+    # regression (fixed c2ba9bf): an output read before it was ever written starts at 0 on both sides
+    ('WCountUp', [{'a': 1, 'b': 0}, {'a': 1, 'b': 0}, {'a': 0, 'b': 0}, {'a': 1, 'b': 0}], 'regression:agree'),
     # regression (fixed 5f87e48): a local named like a self attribute must be refused
     ('WClash', [{'a': 1, 'b': 0}, {'a': 1, 'b': 0}], 'regression:refuse'),
 ]
